@@ -803,6 +803,19 @@ def check_step(run, last_op, pending):
             bad('monitor', 'get_transitions-filter-not-exact', None, source=src, dest=dst,
                 got=[(t.source, t.dest) for t in got], expected=[(t.source, t.dest) for t in exp])
             break
+        # the same selection with the STATE OBJECTS as selectors (local names repeat under different parents: the object,
+        # not its name, identifies the state)
+        try:
+            so = '*' if src is None else m.get_state(sep.join(src))
+            do = '*' if dst is None else m.get_state(sep.join(dst))
+            got_o = m.get_transitions('', so, do)
+        except Exception as e:     # noqa
+            bad('monitor', 'get_transitions-by-state-object-raised', None, source=src, dest=dst, err=repr(e)[:120])
+            break
+        if sorted(map(id, got_o)) != sorted(map(id, exp)):
+            bad('monitor', 'get_transitions-by-state-object-not-exact', None, source=src, dest=dst,
+                got=[(t.source, t.dest) for t in got_o], expected=[(t.source, t.dest) for t in exp])
+            break
     pending.append(('c11trans', enc_trans_request(paths, table, sep, queries),
                     {'queries': [(q[0], q[1], q[2]) for q in queries],
                      'results': [sorted((where[id(t)] for t in q[3]), key=repr) for q in queries]}))
